@@ -4,8 +4,11 @@ CONSTANTS
  NT = 3
  NO = 2
  NS = 3
+ NB = 2
+ Shape = "flat"
+ Ext = {}
  MaxOps = 1
 VIEW View
 ACTION_CONSTRAINT Emit
-INVARIANTS NoUseAfterFree AliveWhileHandles DestroyedOnce CountsMatch ReleasedWithLastHandle
+INVARIANTS NoUseAfterFree AliveWhileHandles DestroyedOnce CountsMatch ReleasedWithLastHandle NoHalfDestroyed SubtreeAlive
 CHECK_DEADLOCK FALSE
